@@ -1050,6 +1050,118 @@ theorem norm_totalL {σ} (hA : Acyclic σ) : ∀ ts : List Ty, ∃ f xs, mapO (n
     exact ⟨max f1 f2, x :: xs, mapO_cons_some.2 ⟨x, xs, normF_le hx (by omega), mapO_normF_le hxs (by omega), rfl⟩⟩
 end
 
+/-! ### an explicit bound on the recursion depth of `norm` -/
+
+mutual
+/-- nesting depth of a type (leaves and variables have depth 0): `norm` on a type without bound
+variables recurses exactly `depth t + 1` deep -/
+def depth : Ty → Nat
+  | .tuple ts => depthL ts + 1
+  | .app t args => max (depth t) (depthL args) + 1
+  | .array _ e => depth e + 1
+  | .vec e => depth e + 1
+  | .ref e => depth e + 1
+  | .func ps r => max (depthL ps) (depth r) + 1
+  | _ => 0
+def depthL : List Ty → Nat
+  | [] => 0
+  | t :: ts => max (depth t) (depthL ts)
+end
+
+/-- `h` ranks the store: every variable inside the value of a key has (through its root) a smaller
+rank than that key.  A store has a ranking iff it is acyclic (`ranked_of_acyclic`, `acyclic_of_ranked`). -/
+def RankedBy (h : Nat → Nat) (σ : Store) : Prop :=
+  ∀ r t, σ.val r = some t → ∀ w, occursOk w t = false → h (σ.rep w) < h r
+
+theorem occursOkL_cons_false {w t ts} : occursOkL w (t :: ts) = false ↔ occursOk w t = false ∨ occursOkL w ts = false := by
+  cases h1 : occursOk w t <;> cases h2 : occursOkL w ts <;> simp [occursOkL, h1, h2]
+
+mutual
+theorem measT {σ : Store} {h : Nat → Nat} {K B : Nat}
+    (Hvar : ∀ v, h (σ.rep v) < K → ∃ x, normF (B + 1) σ (.tvar v) = some x) :
+    ∀ t, (∀ w, occursOk w t = false → h (σ.rep w) < K) → ∃ x, normF (depth t + B + 1) σ t = some x
+  | .tvar v, H => by
+    obtain ⟨x, hx⟩ := Hvar v (H v (by simp [occursOk]))
+    exact ⟨x, normF_le hx (by simp [depth])⟩
+  | .unit, _ => ⟨_, normF_leaf rfl _ _⟩ | .bool, _ => ⟨_, normF_leaf rfl _ _⟩ | .string, _ => ⟨_, normF_leaf rfl _ _⟩
+  | .int _ _, _ => ⟨_, normF_leaf rfl _ _⟩ | .float _, _ => ⟨_, normF_leaf rfl _ _⟩ | .enum _, _ => ⟨_, normF_leaf rfl _ _⟩
+  | .struct _, _ => ⟨_, normF_leaf rfl _ _⟩ | .dyn _, _ => ⟨_, normF_leaf rfl _ _⟩ | .param _, _ => ⟨_, normF_leaf rfl _ _⟩
+  | .tuple ts, H => by
+    obtain ⟨xs, hxs⟩ := measL Hvar ts (fun w hw => H w (by simpa [occursOk] using hw))
+    refine ⟨.tuple xs, ?_⟩
+    have e : depth (.tuple ts) + B + 1 = (depthL ts + B + 1) + 1 := by simp [depth]; omega
+    rw [e, normF_tuple, hxs]; rfl
+  | .app t args, H => by
+    obtain ⟨x, hx⟩ := measT Hvar t (fun w hw => H w (by simp [occursOk, hw]))
+    obtain ⟨xs, hxs⟩ := measL Hvar args (fun w hw => H w (by simp [occursOk, hw]))
+    refine ⟨.app x xs, ?_⟩
+    have e : depth (.app t args) + B + 1 = (max (depth t) (depthL args) + B + 1) + 1 := by simp [depth]; omega
+    rw [e, normF_app, normF_le hx (by omega)]
+    simp [mapO_normF_le hxs (show depthL args + B + 1 ≤ max (depth t) (depthL args) + B + 1 by omega)]
+  | .array n e, H => by
+    obtain ⟨x, hx⟩ := measT Hvar e (fun w hw => H w (by simpa [occursOk] using hw))
+    refine ⟨.array n x, ?_⟩
+    have e' : depth (.array n e) + B + 1 = (depth e + B + 1) + 1 := by simp [depth]; omega
+    rw [e', normF_array, hx]; rfl
+  | .vec e, H => by
+    obtain ⟨x, hx⟩ := measT Hvar e (fun w hw => H w (by simpa [occursOk] using hw))
+    refine ⟨.vec x, ?_⟩
+    have e' : depth (.vec e) + B + 1 = (depth e + B + 1) + 1 := by simp [depth]; omega
+    rw [e', normF_vec, hx]; rfl
+  | .ref e, H => by
+    obtain ⟨x, hx⟩ := measT Hvar e (fun w hw => H w (by simpa [occursOk] using hw))
+    refine ⟨.ref x, ?_⟩
+    have e' : depth (.ref e) + B + 1 = (depth e + B + 1) + 1 := by simp [depth]; omega
+    rw [e', normF_ref, hx]; rfl
+  | .func ps r, H => by
+    obtain ⟨x, hx⟩ := measT Hvar r (fun w hw => H w (by simp [occursOk, hw]))
+    obtain ⟨xs, hxs⟩ := measL Hvar ps (fun w hw => H w (by simp [occursOk, hw]))
+    refine ⟨.func xs x, ?_⟩
+    have e : depth (.func ps r) + B + 1 = (max (depthL ps) (depth r) + B + 1) + 1 := by simp [depth]; omega
+    rw [e, normF_func, mapO_normF_le hxs (show depthL ps + B + 1 ≤ max (depthL ps) (depth r) + B + 1 by omega)]
+    simp [normF_le hx (show depth r + B + 1 ≤ max (depthL ps) (depth r) + B + 1 by omega)]
+theorem measL {σ : Store} {h : Nat → Nat} {K B : Nat}
+    (Hvar : ∀ v, h (σ.rep v) < K → ∃ x, normF (B + 1) σ (.tvar v) = some x) :
+    ∀ ts, (∀ w, occursOkL w ts = false → h (σ.rep w) < K) → ∃ xs, mapO (normF (depthL ts + B + 1) σ) ts = some xs
+  | [], _ => ⟨[], rfl⟩
+  | t :: ts, H => by
+    obtain ⟨x, hx⟩ := measT Hvar t (fun w hw => H w (occursOkL_cons_false.2 (.inl hw)))
+    obtain ⟨xs, hxs⟩ := measL Hvar ts (fun w hw => H w (occursOkL_cons_false.2 (.inr hw)))
+    exact ⟨x :: xs, mapO_cons_some.2 ⟨x, xs, normF_le hx (by simp [depthL]; omega),
+      mapO_normF_le hxs (by simp [depthL]; omega), rfl⟩⟩
+end
+
+/-- a variable of rank below `K` normalises within `K * (D+1) + 1` steps, `D` bounding the depth of
+every stored value -/
+theorem ranked_var {σ : Store} {h : Nat → Nat} {D : Nat} (hR : RankedBy h σ)
+    (hD : ∀ r t, σ.val r = some t → depth t ≤ D) :
+    ∀ K v, h (σ.rep v) < K → ∃ x, normF (K * (D+1) + 1) σ (.tvar v) = some x
+  | 0, _, hv => by cases hv
+  | K+1, v, hv => by
+    have IH := ranked_var hR hD K
+    cases hs : σ.val (σ.rep v) with
+    | none => exact ⟨_, by rw [normF_tvar, hs]⟩
+    | some s =>
+      have hvars : ∀ w, occursOk w s = false → h (σ.rep w) < K := fun w hw => by
+        have := hR _ _ hs w hw; omega
+      obtain ⟨x, hx⟩ := measT (B := K * (D+1)) IH s hvars
+      have hd := hD _ _ hs
+      refine ⟨x, ?_⟩
+      rw [normF_tvar, hs]
+      exact normF_le hx (by rw [Nat.succ_mul]; omega)
+
+/-- **`norm` terminates within an explicit number of nested calls.**  On a store ranked by `h` with
+ranks below `H` and stored values of depth at most `D`, `norm t` returns using at most
+`depth t + H * (D+1) + 1` nested calls — so the real `norm` cannot overflow the stack on such a store. -/
+theorem norm_terminates {σ : Store} {h : Nat → Nat} {H D : Nat} (hR : RankedBy h σ)
+    (hH : ∀ v, h v < H) (hD : ∀ r t, σ.val r = some t → depth t ≤ D) :
+    ∀ t, ∃ x, normF (depth t + H * (D+1) + 1) σ t = some x :=
+  fun t => measT (K := H) (ranked_var hR hD H) t (fun _ _ => hH _)
+
+theorem acyclic_of_ranked {σ : Store} {h : Nat → Nat} {D : Nat} (hR : RankedBy h σ)
+    (hD : ∀ r t, σ.val r = some t → depth t ≤ D) : Acyclic σ :=
+  fun v => let ⟨x, hx⟩ := ranked_var hR hD (h (σ.rep v) + 1) v (Nat.lt_succ_self _); ⟨_, x, hx⟩
+
 /-! ### the stores the typer can reach -/
 
 theorem empty_wf : WF Store.empty := fun _ => rfl
